@@ -87,3 +87,30 @@ int sz_keys (int n) { return sizeof (keys (mk (0, n))); }
 int sz_values (int n) { return sizeof (values (mk (0, n))); }
 int sz_allocate_mapping (int n) { return sizeof (allocate_mapping (n)); }
 int sz_sprintf_pad (int w, int n) { return strlen (sprintf ("%*s", w, str (n, "x"))); }
+
+// count bookkeeping across partially applied operations: a sequence of inserts and in-place `m += m2` on one
+// mapping, every operation inside catch; returns "<k|e per op>:<sizeof (m)>/<nodes reached by iteration>"
+// ops (comma separated):  i<key><n|o>   insert key (new / old)      a<from>:<n>:<new>   m += ([ from .. from+n-1 ])
+mapping gm;
+string mapseq (string ops) {
+  string res = ""; string op; int n = 0; mixed k, v;
+  gm = ([ ]);
+  foreach (op in explode (ops, ",")) {
+    mixed e;
+    if (op[0] == 'i') {
+      int key = to_int (op[1..<2]);
+      e = catch (gm[key] = 1);
+    } else {
+      string *w = explode (op[1..], ":");
+      mapping m2 = mk (to_int (w[0]), to_int (w[1]));
+      e = catch (gm += m2);
+    }
+    res += e ? "e" : "k";
+  }
+  foreach (k, v in gm) n++;
+  return res + ":" + sizeof (gm) + "/" + n;
+}
+int keep_key_lt (int k, int v, int kept) { return k < kept; }
+int ident2 (int k, int v) { return v; }
+int sz_filter_mapping (int n, int kept) { return sizeof (filter_mapping (mk (0, n), "keep_key_lt", this_object (), kept)); }
+int sz_map_mapping (int n) { return sizeof (map_mapping (mk (0, n), "ident2", this_object ())); }
